@@ -141,3 +141,48 @@ def main_tables():
 
 if __name__ == "__main__":
     main()
+
+
+def main_relabel():
+    """the same network with bus labels 0..n-1 and with relabelled buses (gap, offset): elements with auxiliary buses"""
+    fails = []
+
+    def ssc(labels):
+        net = pp.create_empty_network(sn_mva=100.)
+        b = [pp.create_bus(net, 110., index=i) for i in labels]
+        pp.create_ext_grid(net, b[0], 1.02)
+        for i, j in ((0, 1), (1, 2), (2, 3), (3, 4), (0, 4)):
+            pp.create_line_from_parameters(net, b[i], b[j], 30., 0.06, 0.3, 10., 0.6)
+        for k in b[1:]:
+            pp.create_load(net, k, 20., 8.)
+        pp.create_ssc(net, b[2], r_ohm=0., x_ohm=5., set_vm_pu=1.0, controllable=False, vm_internal_pu=1.01, va_internal_degree=-3.)
+        return net, {}
+
+    def xward(labels):
+        net = pp.create_empty_network()
+        b = [pp.create_bus(net, 110., index=i) for i in labels]
+        pp.create_ext_grid(net, b[0], vm_pu=1.01, slack_weight=1.)
+        pp.create_gen(net, b[1], p_mw=30., vm_pu=1.01, slack_weight=2.)
+        pp.create_xward(net, b[3], 5., 1., 0.5, 0.2, 0., 5., 1.0, slack_weight=0.5)
+        for i, j in ((0, 1), (1, 2), (2, 3), (3, 4), (4, 0)):
+            pp.create_line_from_parameters(net, b[i], b[j], 20., 0.06, 0.3, 10., 0.8)
+        pp.create_load(net, b[2], 70., 10.); pp.create_load(net, b[4], 45., 5.)
+        return net, dict(distributed_slack=True)
+    for tag, build in (("SSC with controllable=False", ssc), ("xward with distributed_slack=True", xward)):
+        ref, kw = build([0, 1, 2, 3, 4])
+        pp.runpp(ref, tolerance_mva=1e-9, **kw)
+        for name, labels in (("one gap (0, 1, 2, 3, 5)", [0, 1, 2, 3, 5]), ("offset (10 .. 14)", [10, 11, 12, 13, 14])):
+            net, kw = build(labels)
+            try:
+                pp.runpp(net, tolerance_mva=1e-9, **kw)
+            except Exception as e:
+                fails.append(f"{tag}, bus labels {name}: runpp raises {type(e).__name__}: {str(e)[:90]} (labels 0..4: converges, slack "
+                             f"{ref.res_ext_grid.p_mw.sum():.4f} MW)")
+                continue
+            if np.max(np.abs(net.res_bus.vm_pu.values - ref.res_bus.vm_pu.values)) > 1e-7:
+                fails.append(f"{tag}, bus labels {name}: voltages differ from the network with labels 0..4")
+    for f in fails:
+        print("REPRODUCED:", f)
+    if not fails:
+        print("not reproduced: results do not depend on the bus labels")
+    sys.exit(1 if fails else 0)
